@@ -35,6 +35,9 @@ type rSess struct {
 	// GivenUE: the UP allocated a UE address for this session at some point of its life (an Update PDR that repeats the
 	// address explicitly does not take it away)
 	GivenUE bool
+	// GivenAddr: the UE address the establishment response reported (Created PDR), 0 if none: the session holds it until it
+	// ends, whichever of its rules are removed or replaced meanwhile
+	GivenAddr uint32
 }
 
 func (s *rSess) far(id uint32) *sFAR {
@@ -392,6 +395,11 @@ func (s *sessSys) exec(r *sessReq) *stepCtx {
 			}
 			ns.FARs = append(ns.FARs, r.CreateFAR...)
 			ns.QERs = append(ns.QERs, r.CreateQER...)
+			for _, cr := range ctx.resp.Created {
+				if cr.HasU && cr.UEIP != "" {
+					ns.GivenAddr = vIP4(cr.UEIP)
+				}
+			}
 			s.m.Sess = append(s.m.Sess, ns)
 			ctx.newSess = ns
 		case kMod:
